@@ -686,6 +686,20 @@ class Run(object):
         if self.model is not None:
             self.res.count('row25_followups_completed')
 
+    def step_ctrl_from_wrap(self, code):
+        """A cursor-moving control code printed from the last-column state, then: report == cell of the next character."""
+        m = self.model
+        n = m.w if m.wrapped else m.w - m.col + 1
+        self.step_print(rstr(self.rng, min(n, 240)), False)
+        if self.model is None or not self.model.wrapped:
+            return
+        self.ex(b'PRINT CHR$(%d);' % code)
+        self.model = None
+        self.res.count('control_code_steps')
+        self.res.count('control_codes_from_last_column_state')
+        self.check_reports()
+        self.probe('control-code')
+
     def fill_outside_rows(self):
         """Distinct text on every row, so that any movement of rows outside a later window is visible."""
         for r in range(1, self.model.h):
@@ -854,8 +868,10 @@ class Run(object):
                     self.step_width()
                 elif k < 0.93 and not m.view:
                     self.step_row25(rng.random() < 0.5)
-                elif k < 0.97:
+                elif k < 0.96:
                     self.step_reposition_from_wrap()
+                elif k < 0.98:
+                    self.step_ctrl_from_wrap(rng.choice([28, 29, 30, 31, 9, 11, 13, 10, 12]))
                 else:
                     # leave the modelled world for a few steps
                     self.model = None
@@ -911,6 +927,13 @@ def directed(harness, res):
                ('locate', 6, W - 4), ('output', 'numbers', [1, -22, 333, 4444], True),
                ('locate', 9, W - 7), ('output', 'write', [b'a b c', 12], True),
                ('locate', 12, W - 6), ('output', 'file', [b'uv w', b'x  yz'], True)]
+        Run(harness, res, rng, mode).run(0, sc)
+    # cursor-moving control codes printed from the last-column state
+    for mode in (MODES[0], MODES[1], MODES[8]):
+        sc = []
+        for code in (28, 29, 30, 31, 9, 11, 13, 10, 12):
+            for r0 in (3, 24):
+                sc += [('resync',), ('locate', r0, 5), ('ctrl_from_wrap', code)]
         Run(harness, res, rng, mode).run(0, sc)
     # every statement that repositions the cursor, executed from the last-column (pending wrap) state, then output
     for mode in (MODES[0], MODES[1], MODES[7], MODES[10], MODES[5]):
